@@ -798,14 +798,21 @@ def _uncovered_exits(templates):
     from . import extract
     import tempfile
     spans = {}
+    whole = set()
     for t in templates:
         with tempfile.NamedTemporaryFile("w", suffix=".rs", delete=True) as tmp:
             report, _lm = extract.render(os.path.join(os.path.dirname(EXITS_DIR), t), tmp.name)
         for r in report:
             if r.get("mode") == "fragment":
                 spans.setdefault((r["file"], r.get("impl"), r["fn"], r.get("nth", 1)), []).append(tuple(r["span"]))
+            elif r.get("mode") == "body":
+                # the whole function is under contract in some unit: every exit of it is inside a span by definition
+                whole.add((r["file"], r["item"].split("fn ")[-1].strip()))
     out = {}
     for (file, impl, fn, nth), sp in sorted(spans.items(), key=lambda kv: (kv[0][0], kv[0][2])):
+        if (file, fn) in whole and not impl:
+            out["%s::%s" % (file, fn)] = []
+            continue
         src = open(os.path.join(REPO, file)).read()
         msk = mask(src)
         lo, hi = 0, len(src)
@@ -1460,7 +1467,89 @@ def check_broadcast_delivery(u):
     return obligations, failures, ["%s:%d tx_bcast.send(AddBroadcast(..)).await" % (file, _line(src, o + m.start()))]
 
 
-CHECKS = {"broadcast_delivery": check_broadcast_delivery, "updates_row_binding": check_updates_row_binding, "row_bindings": check_row_bindings, "feeds_fed": check_feeds_fed, "exists_binding": check_exists_binding, "seqmerge_params": check_seqmerge_params, "chunker_ranges": check_chunker_ranges, "persist_before_publish": check_persist_before_publish, "schema_reload": check_schema_reload, "cluster_id_fresh": check_cluster_id_fresh, "schema_ddl": check_schema_ddl, "schema_atomic": check_schema_atomic, "seq_range_guard": check_seq_range_guard, "exits_covered": check_exits_covered, "sub_lag_stops": check_sub_lag_stops, "single_snapshot": check_single_snapshot, "offer_loops": check_offer_loops, "speedy_prealloc": check_speedy_prealloc, "from_conn": check_from_conn, "sql_actor_scoping": check_sql_actor_scoping, "local_write_sequence": check_local_write_sequence, "insert_local_changes": check_insert_local_changes, "authz_layer": check_authz_layer, "readonly_guard": check_readonly_guard, "read_pool": check_read_pool}
+def check_sub_select_only(u):
+    """C17: the text submitted to the subscription endpoint reaches SQLite only (a) to be *prepared* for its column names and
+    (b) through the SQL parser, whose result is rejected unless it is one SELECT statement; nothing is executed on the node's
+    (write-capable) connection inside `Matcher::new`, and every statement run later is printed from the parsed SELECT."""
+    file = u["file"]
+    src, msk, o, c = _fn_body(file, u["fn"], u.get("impl"))
+    body = msk[o:c]
+    obligations = ["raw-text-only-prepared-for-column-names-or-parsed", "nothing-executed-on-node-connection-before-the-select-guard",
+                   "non-select-statement-rejected", "non-statement-command-rejected"]
+    failures, samples = [], []
+    # (A) every use of the raw text `sql`
+    allowed = [r"\.\s*as_bytes\s*\(\s*\)", r"\.\s*to_owned\s*\(\s*\)", r"\.\s*to_string\s*\(\s*\)", r"\.\s*len\s*\(\s*\)"]
+    for m in re.finditer(r"(?<![\w.%])sql\b(?!\s*:)", body):
+        at = o + m.start()
+        after = msk[at + 3:at + 60]
+        before = msk[max(o, at - 40):at]
+        if any(re.match(r"\s*" + a, after) for a in allowed):
+            continue
+        pm = re.search(r"\.\s*prepare\s*\(\s*$", before)
+        if pm:
+            # `X.prepare(sql)?` must be consumed on the spot by `.column_names()` / `.column_count()` (no binding, no stepping)
+            close = match_delim(msk, msk.rfind("(", o, at))
+            rest = msk[close + 1:close + 80]
+            if re.match(r"\s*\?\s*\.\s*(column_names|column_count|readonly)\s*\(\s*\)", rest):
+                samples.append("%s:%d raw text prepared for its column names only" % (file, _line(src, at)))
+                continue
+            failures.append(("raw-text-only-prepared-for-column-names-or-parsed", _line(src, at), "statement prepared from the raw subscription text is kept or stepped instead of being read for its column names only"))
+            continue
+        if re.search(r"%\s*$", before) or re.search(r"\b(info|debug|trace|warn|error)!\s*\([^;]*$", before):
+            continue
+        failures.append(("raw-text-only-prepared-for-column-names-or-parsed", _line(src, at), "raw subscription text used outside prepare-for-column-names / parser / copy"))
+    # (B) the node connection is not run inside this function
+    for m in re.finditer(r"\bstate_conn\b", body):
+        at = o + m.start()
+        after = msk[at + len("state_conn"):at + 80]
+        if re.match(r"\s*:", after):
+            continue
+        if re.match(r"\s*\.\s*prepare\s*\(\s*sql\s*\)", after):
+            continue
+        failures.append(("nothing-executed-on-node-connection-before-the-select-guard", _line(src, at), "the node's connection is used for something other than preparing the text for its column names"))
+    for m in re.finditer(r"\.\s*(execute|execute_batch|query|query_row|query_map|raw_execute|exists|raw_query)\s*\(\s*\(?\s*sql\b", body):
+        failures.append(("nothing-executed-on-node-connection-before-the-select-guard", _line(src, o + m.start()), "raw subscription text is executed"))
+    # (C) the parse guard
+    pm = re.search(r"\bmatch\s+parser\s*\.\s*next\s*\(\s*\)[^{]*\{", body)
+    if not pm:
+        raise LostAnchor("`match parser.next()…` not found in %s" % u["fn"])
+    mo = o + pm.end() - 1
+    mc = match_delim(msk, mo)
+    arms = _match_arms(msk, mo, mc)
+    stmt_arm = [a for a in arms if re.match(r"(Some\s*\()?\s*Cmd\s*::\s*Stmt\s*\(", a[0])]
+    other = [a for a in arms if a not in stmt_arm]
+    if len(stmt_arm) != 1:
+        raise LostAnchor("Cmd::Stmt arm not found")
+    for pat, bs, be in other:
+        if not re.match(r"\{?\s*return\s+Err\s*\(", msk[bs:be]) and not re.match(r"\{?\s*Err\s*\(", msk[bs:be]):
+            failures.append(("non-statement-command-rejected", _line(src, bs), "a parser result other than a statement (`%s`) is not rejected" % pat))
+    if not other:
+        failures.append(("non-statement-command-rejected", _line(src, mo), "no rejecting arm for non-statement commands"))
+    _, sbs, sbe = stmt_arm[0]
+    im = re.search(r"\bmatch\s+&?(mut\s+)?stmt\s*\{", msk[sbs:sbe])
+    if not im:
+        raise LostAnchor("`match stmt {` not found in the Cmd::Stmt arm")
+    io_ = sbs + im.end() - 1
+    ic = match_delim(msk, io_)
+    iarms = _match_arms(msk, io_, ic)
+    sel = [a for a in iarms if re.match(r"Stmt\s*::\s*Select\s*\(", a[0]) and not re.search(r"\bif\b", a[0])]
+    rest = [a for a in iarms if a not in sel]
+    if not sel:
+        failures.append(("non-select-statement-rejected", _line(src, io_), "no arm accepting exactly `Stmt::Select`"))
+    for pat, bs, be in rest:
+        if not re.match(r"\{?\s*return\s+Err\s*\(", msk[bs:be]):
+            failures.append(("non-select-statement-rejected", _line(src, bs), "statement kind `%s` is accepted for a subscription" % pat.strip()[:60]))
+    if not rest:
+        failures.append(("non-select-statement-rejected", _line(src, io_), "no rejecting arm for non-SELECT statements"))
+    samples.append("%s:%d only Stmt::Select is accepted; %d other arm(s) return Err" % (file, _line(src, io_), len(rest)))
+    # the guard comes before the first statement text derived from the parse is produced
+    first_print = re.search(r"Cmd\s*::\s*Stmt\s*\(\s*stmt\s*\)\s*\.\s*to_string", msk[mc:c])
+    if first_print is None:
+        samples.append("no statement text is printed in this function after the guard")
+    return obligations, failures, samples
+
+
+CHECKS = {"sub_select_only": check_sub_select_only, "broadcast_delivery": check_broadcast_delivery, "updates_row_binding": check_updates_row_binding, "row_bindings": check_row_bindings, "feeds_fed": check_feeds_fed, "exists_binding": check_exists_binding, "seqmerge_params": check_seqmerge_params, "chunker_ranges": check_chunker_ranges, "persist_before_publish": check_persist_before_publish, "schema_reload": check_schema_reload, "cluster_id_fresh": check_cluster_id_fresh, "schema_ddl": check_schema_ddl, "schema_atomic": check_schema_atomic, "seq_range_guard": check_seq_range_guard, "exits_covered": check_exits_covered, "sub_lag_stops": check_sub_lag_stops, "single_snapshot": check_single_snapshot, "offer_loops": check_offer_loops, "speedy_prealloc": check_speedy_prealloc, "from_conn": check_from_conn, "sql_actor_scoping": check_sql_actor_scoping, "local_write_sequence": check_local_write_sequence, "insert_local_changes": check_insert_local_changes, "authz_layer": check_authz_layer, "readonly_guard": check_readonly_guard, "read_pool": check_read_pool}
 
 
 def run_unit(prop, u, tier, ctx, here):
